@@ -17,6 +17,72 @@ var c10Scripts = []string{"x", "x+1", "1+x", "-x", "x==x", "x ?? 1", "x ? 1 : 2"
 	"x.keys()", "x.values()", "x.items()", "x.shuffle()", "x.pop()", "x.shift()", "x.push(1)", "x.rand()", "x.randSize(1)", "x.compute()", "[x]*2", "x*2", "`{x}`", "toStr(x)", "repr(x)", "dir(x)", "typeId(x)", "toInt(x)", "toBool(x)",
 	"2d(x)", "(x)d6", "&y = x; y", "x == 1", "x < 1", "[x, x]", "{'k': x}", "x[0][0]", "x.a.b", "func f(v) { v }; f(x)", "store('q', x); q", "load('x')", "x.fn(1)", "x.cv", "abs(x)", "[1,2,3][x]", "x[x]"}
 
+// c10GenScript draws a script from the matrix (form × index key × right-hand side × name), so
+// that the battery is not limited to the fixed list above.
+func c10GenScript(r *fw.Rand) string {
+	K := func() string {
+		return r.Pick([]string{"0", "-1", "1", "'a'", "\"hp\"", "'0'", "1.5", "null", "x", "[1]", "{}", "true", "9223372036854775807", "''", "'len'", "-0.0"})
+	}
+	V := func() string { return r.Pick([]string{"1", "x", "'s'", "[x]", "null", "2.5", "[]", "{'a': x}"}) }
+	N := func() string {
+		return r.Pick([]string{"a", "len", "keys", "base", "fn", "push", "__proto__", "compute", "name", "v"})
+	}
+	OP := func() string {
+		return r.Pick([]string{"+", "-", "*", "/", "//", "%", "**", "<", "<=", "==", "!=", ">", ">=", "&&", "||", "??", "&", "|"})
+	}
+	switch r.Intn(26) {
+	case 0:
+		return "x[" + K() + "]"
+	case 1, 2:
+		return "x[" + K() + "] = " + V()
+	case 3:
+		return "x[" + K() + "] = " + V() + "; x"
+	case 4:
+		return "x[" + K() + ":" + K() + "]"
+	case 5:
+		return "x[" + K() + ":" + K() + "] = " + V()
+	case 6:
+		return "x[:" + K() + "]"
+	case 7:
+		return "x[" + K() + ":]"
+	case 8:
+		return "x." + N()
+	case 9, 10:
+		return "x." + N() + " = " + V()
+	case 11:
+		n := N()
+		return "x." + n + " = " + V() + "; x." + n
+	case 12:
+		return "x." + N() + "(" + V() + ")"
+	case 13:
+		return "x[" + K() + "](" + V() + ")"
+	case 14:
+		return "x[" + K() + "][" + K() + "]"
+	case 15:
+		return "x[" + K() + "][" + K() + "] = " + V()
+	case 16:
+		return "x." + N() + "." + N() + " = " + V()
+	case 17:
+		return "x." + N() + "[" + K() + "] = " + V()
+	case 18:
+		return "&x." + N()
+	case 19:
+		return "&x." + N() + " = " + V()
+	case 20:
+		return "y = x; y[" + K() + "] = " + V() + "; x"
+	case 21:
+		return "x " + OP() + " " + V()
+	case 22:
+		return V() + " " + OP() + " x"
+	case 23:
+		return "x." + N() + "(" + K() + ", " + V() + ")"
+	case 24:
+		return "y = [x, x]; y[0][" + K() + "] = " + V() + "; y"
+	default:
+		return "func g(v) { v[" + K() + "] = " + V() + "; v }; g(x)"
+	}
+}
+
 func c10Scalar(r *fw.Rand) string {
 	return r.Pick([]string{"1", "0", "-1", "1.5", "\"s\"", "\"\"", "null", "true", "false", "[]", "{}", "[1]", "{\"a\":1}", "9223372036854775807", "9223372036854775808", "1e400", "-0", "1e-400", "\"\\ud800\"", "[null]", "{\"list\":null}"})
 }
@@ -247,10 +313,64 @@ func c10Case(w *fw.W, idx int, r *fw.Rand) {
 	cfg := AllDice()
 	cfg.OpLimit = 5000
 	cfg.Seed = 11
+	// the operations the VM applies to arbitrary operands, called directly with hostile arguments
+	{
+		ctx := cfg.NewVM()
+		keys := []*ds.VMValue{ds.NewIntVal(0), ds.NewIntVal(-1), ds.NewStrVal("a"), ds.NewStrVal("len"), ds.NewFloatVal(1.5), ds.NewNullVal(), val, ds.NewArrayVal(ds.NewIntVal(1)), ds.NewIntVal(1 << 62)}
+		rhs := []*ds.VMValue{ds.NewIntVal(1), val, ds.NewStrVal("s"), ds.NewNullVal(), ds.NewArrayVal()}
+		k1, k2, rv := keys[r.Intn(len(keys))], keys[r.Intn(len(keys))], rhs[r.Intn(len(rhs))]
+		nm := r.Pick([]string{"a", "len", "base", "__proto__", "push", ""})
+		kd := fmt.Sprintf("k1=%s k2=%s rhs=%s name=%q", trunc(Canon(k1), 40), trunc(Canon(k2), 40), trunc(Canon(rv), 40), nm)
+		api := func(what string, f func()) {
+			ctx.Error = nil
+			step("API "+what+" "+kd, f)
+		}
+		api("ItemGet", func() { _ = val.ItemGet(ctx, k1) })
+		api("ItemSet", func() { _ = val.Clone().ItemSet(ctx, k1, rv) })
+		api("AttrGet", func() { _ = val.AttrGet(ctx, nm) })
+		api("AttrSet", func() { _ = val.Clone().AttrSet(ctx, nm, rv) })
+		api("GetSliceEx", func() { _ = val.GetSliceEx(ctx, k1, k2) })
+		api("SetSliceEx", func() { _ = val.Clone().SetSliceEx(ctx, k1, k2, rv) })
+		api("Length", func() { _ = val.Length(ctx) })
+		api("AsDictKey", func() { _, _ = val.AsDictKey() })
+		api("OpPositive/OpNegation", func() { _ = val.OpPositive(); _ = val.OpNegation() })
+		api("binary operators", func() {
+			for _, f := range []func(*ds.Context, *ds.VMValue) *ds.VMValue{val.OpAdd, val.OpSub, val.OpMultiply, val.OpDivide, val.OpModulus, val.OpPower, val.OpNullCoalescing, val.OpCompLT, val.OpCompLE, val.OpCompEQ, val.OpCompNE, val.OpCompGE, val.OpCompGT, val.OpBitwiseAnd, val.OpBitwiseOr} {
+				_ = f(ctx, rv)
+			}
+			for _, f := range []func(*ds.Context, *ds.VMValue) *ds.VMValue{rv.OpAdd, rv.OpSub, rv.OpMultiply, rv.OpDivide, rv.OpCompEQ, rv.OpCompLT, rv.OpNullCoalescing} {
+				_ = f(ctx, val)
+			}
+		})
+	}
 	bind := r.Intn(4)
-	for _, si := range r.Perm(len(c10Scripts))[:26] {
-		sc := c10Scripts[si]
+	battery := make([]string, 0, 40)
+	for _, si := range r.Perm(len(c10Scripts))[:20] {
+		battery = append(battery, c10Scripts[si])
+	}
+	nFixed := len(battery)
+	for i := 0; i < 14; i++ {
+		battery = append(battery, c10GenScript(r))
+	}
+	for bi, sc := range battery {
 		vm := cfg.NewVM()
+		if bi >= nFixed && bind == 3 {
+			vm.Attrs.Store("p", val)
+			d := ds.NewDictVal(nil)
+			d.Store("p", val)
+			vm.Attrs.Store("x", d.V())
+			sc = strings.ReplaceAll(sc, "x", "x.p")
+			script := sc
+			step("script "+script, func() {
+				_ = vm.Run(script)
+				_ = vm.GetDetailText()
+				if vm.Ret != nil {
+					_ = vm.Ret.ToString()
+				}
+				_, _ = vm.Attrs.ToJSON()
+			})
+			continue
+		}
 		switch bind {
 		case 0, 1:
 			vm.Attrs.Store("x", val)
